@@ -38,10 +38,15 @@ RULE = ("array list: every history of insert/append/remove up to length 4 (quick
         "directions, every slot index 0..capacity+1) and compared; distinct = distinct script text with at least one "
         "accepted and one refused operation or probe")
 TRUSTED_BASE = [
-    "modelled, not verified: pointer splicing of linked list / queue / pointer-slot live list (functional sequences in the "
-    "model; the driver walks prev/next in both directions and checks raw link consistency after every op under ASan); "
-    "malloc (oracle; failure injected with -Wl,--wrap=malloc); memory_pool.c as node pool is represented by its capacity only",
+    "modelled, not verified: malloc (oracle; failure injected with -Wl,--wrap=malloc); memory_pool.c as node pool is "
+    "represented by its capacity only; node identity (a freed node's address may be reused by the allocator; the models and "
+    "both drivers number nodes by creation order)",
+    "the heap-level models of linked list / queue / pointer-slot live list (coq/C11/ModelHeap.v: next/prev/data maps, one "
+    "set_next/set_prev per C pointer assignment) are hand-transcribed like every other model; they are what the extracted "
+    "model driver runs for these three containers, so the differential run compares the C code with the heap-level model",
     "next_pow_of_2 is modelled as the 5-step smear of utils.c and proved to round up to a power of two for arguments <= 2^31",
+    "lib/leaftrans.py (clang JSON AST -> Gallina) for the second tie of muggle_array_list_get_index; it renders the final "
+    "(int) cast as value-preserving",
 ]
 ASSUMPTIONS = [
     "array list index is an int other than INT_MIN (-index is evaluated in int by the code); sizes stay below 2^31 (enforced by MUGGLE_DS_CAP_IS_VALID)",
@@ -49,7 +54,7 @@ ASSUMPTIONS = [
     "pointer slot: requested capacity <= 2^31; cursor presets are applied to a fresh (empty) slot only",
 ]
 EVIDENCE_NOTES = [
-    "proved in Coq, unbounded (Properties_C11.v, all closed under the global context): "
+    "proved in Coq, unbounded (Properties_C11.v, 28 theorems, all closed under the global context): "
     "al_refines_seq (every op incl. ensure_capacity/clear, every int index except INT_MIN, every state satisfying the "
     "representation invariant: equals the reference list operation, or - when storage cannot be obtained - is rejected with "
     "contents, size and capacity unchanged; the two shift loops are modelled as loops and proved), al_history_refines_seq "
@@ -62,19 +67,31 @@ EVIDENCE_NOTES = [
     "ps_double_remove_refused, ps_iter_insertion_order, ps_step_refines_spec, ps_all_capacities (no access outside slots[]/"
     "pp_slots[]), ps_all_capacities_refuted_before_repair (witness: requested 3 on the code before the patch), "
     "next_pow_of_2_rounds_up",
+    "proved in Coq at HEAP level (coq/C11/ModelHeap.v + ProofsHeap.v): nodes are ids, next/prev/data are explicit maps, head and "
+    "tail are sentinels, every pointer assignment of linked_list.c insert/append/remove/clear/find, queue.c enqueue/dequeue/"
+    "clear/front and pointer_slot.c insert/remove is one set_next/set_prev in the order of the C text; "
+    "list_heap_step_refines / list_heap_find_refines / list_heap_refines_seq, queue_heap_refines_seq, "
+    "ps_heap_refines_live_list: the heap-level models refine the functional sequence models (same results, the chain "
+    "head->...->tail is well formed: a->next=b and b->prev=a for consecutive nodes, all nodes distinct hence acyclic, forward "
+    "walk = the abstract node sequence, backward walk = its reverse, the clear loop terminates within size iterations); "
+    "heap_chain_next_prev_inverse, heap_chain_walks.  Dropping one prev/next assignment from ModelHeap.v makes ProofsHeap.v fail "
+    "(checked for node->prev = new_node in hl_insert)",
+    "second tie (leaf translator): gen_get_index_eq - the C text of muggle_array_list_get_index re-translated on every run "
+    "(coq/gen/Params_C11.v) equals al_get_index for every list state and int index; an edit of the normalisation breaks this "
+    "proof obligation directly",
     "DESIGN.md A.3 stated free_index = alloc_index + F (mod 2^32); that is false at init (all free, both cursors equal); the "
     "proved relation is free_index = alloc_index - |live| (mod 2^32), which gives the A.3 relation modulo the capacity",
-    "covered by the differential run + monitor only (not proved): prev/next pointer splicing of linked list, queue and the "
-    "pointer-slot live list (the driver walks both directions and checks raw links after every op, under ASan); memory_pool.c "
-    "as node pool beyond its capacity counter; exactly-once freeing at destroy; correspondence model <-> C itself",
-    "defect confirmed on the unchanged tree and repaired by fixes/C11-pointer-slot-alloc-rounded.patch: pointer_slot_init sized "
-    "slots[]/pp_slots[] by the requested capacity but used the rounded capacity as ring modulus and bound (1518 of 3210 "
-    "quick-tier pointer-slot cases ended in an ASan heap-buffer-overflow: every requested capacity that is not a power of two)",
+    "covered by the differential run + monitor only (not proved): that the hand-written models (array, heap-level and "
+    "functional) are faithful transcriptions of the C text (except get_index, tied by the translator); memory_pool.c as node "
+    "pool beyond its capacity counter; free()/use-after-free of nodes (ASan); exactly-once freeing at destroy",
+    "defect confirmed on the unchanged tree and repaired by fixes/C11-pointer-slot-alloc-rounded.patch (applied to /repo): "
+    "pointer_slot_init sized slots[]/pp_slots[] by the requested capacity but used the rounded capacity as ring modulus and "
+    "bound (1518 of 3210 quick-tier pointer-slot cases ended in an ASan heap-buffer-overflow: every requested capacity that "
+    "is not a power of two)",
     "observations outside the property's quantifier: muggle_array_list_get_index evaluates -index in int (undefined for "
     "INT_MIN); pointer_slot_init with requested > 2^31 truncates the rounded capacity to 0; array list insert/append double "
     "the capacity before validating the index (a refused position on a full list still grows the storage; contents and size "
     "are unaffected)",
-    "the leaf-translator tie for muggle_array_list_get_index planned in DESIGN.md 4.4 is not implemented (no shared translator yet)",
 ]
 
 TWO31 = 1 << 31
@@ -338,6 +355,27 @@ def _rand_ps(rng, name, nops):
         else:
             ops.append("get %d" % rng.choice([rng.below(cap + 2), UMAX, cap, TWO31]))
     return _case(name, "ps %d %s" % (req, pre), ops)
+
+
+LEAVES = [("muggle/c/dsaa/array_list.c", "muggle_array_list_get_index")]
+
+
+def gen_params(ctx):
+    """Second tie (DESIGN.md 4.4): muggle_array_list_get_index is re-translated from the C text (clang JSON
+    AST) into Gallina on every run; Properties_C11.v (gen_get_index_eq) proves it equal to the model's
+    al_get_index, so an edit of the index normalisation breaks a proof obligation directly."""
+    import os
+    import leaftrans as L
+    V.gen_config_header()
+    flags = ["-std=gnu11", "-I" + V.REPO, "-I" + V.GEN_INC, "-DNDEBUG"]
+    out = ["(* generated by lib/props/c11.py + lib/leaftrans.py from the C text of muggle/c/dsaa/array_list.c on this run; do not edit *)",
+           "From MV Require Import Lib.Leaf.", "Local Open Scope Z_scope.", ""]
+    for src, name in LEAVES:
+        try:
+            out.append(L.translate(os.path.join(V.REPO, src), name, flags)[0])
+        except L.LeafError as e:
+            out.append("(* translator error for %s: %s *)\n" % (name, e))
+    return "\n".join(out)
 
 
 def _corpus_files():
@@ -909,11 +947,16 @@ MANIFEST = {
                    "and queue models refine the reference sequence with unique node ids; pointer slot: inductive invariant "
                    "(ring segment [alloc_index, alloc_index+free) lists exactly the free slots, counters mod 2^32) for every "
                    "requested capacity and cursor preset, giving unique live indices, get-until-removed, refusal when full, "
-                   "refusal of double removal, iteration in insertion order and in-bounds array accesses.  Models tied to the "
+                   "refusal of double removal, iteration in insertion order and in-bounds array accesses; heap-level models "
+                   "(explicit prev/next maps, sentinels, the C pointer assignments in order) of linked list, queue and the "
+                   "pointer-slot live list refine the sequence models (well-formed acyclic chain, forward walk = reverse of "
+                   "backward walk = abstract sequence); muggle_array_list_get_index re-translated from the C text on every run "
+                   "and proved equal to the model.  Models tied to the "
                    "C code by a differential run (extracted OCaml model vs. ASan/UBSan build of the working tree, whole-"
                    "container dump after every op) plus an independent Python list/dict monitor with an ownership map."),
     "design_ref": "DESIGN.md section 6 / C11, Appendix A.3",
-    "level_note": ("Trusted: Coq kernel, extraction (ExtrOcamlBasic), the differential harness.  Pointer splicing of the linked "
-                   "structures is checked by the driver's two-direction walks, not proved; malloc is an oracle."),
+    "level_note": ("Trusted: Coq kernel, extraction (ExtrOcamlBasic), the differential harness, the leaf translator.  Pointer "
+                   "splicing of linked list / queue / pointer-slot live list is modelled at heap level (prev/next maps, assignment "
+                   "by assignment) and proved to refine the sequence models; malloc is an oracle."),
     "technique": "Coq refinement proofs (induction over op lists, ring invariant) + extracted-model differential run under ASan + independent monitor",
 }
